@@ -64,32 +64,32 @@ func ruleC11Methods(c *ctx.Ctx, r *core.Reporter) {
 	sw2 := sw.node.(*ast.SwitchStmt)
 	for _, st := range sw2.Body.List {
 		cc := st.(*ast.CaseClause)
-		if len(cc.List) != 1 {
-			continue
-		}
-		name := strings.Trim(exprStr(cc.List[0]), `"`)
-		for _, ce := range callsNamed(cc, "internalize") {
-			if len(ce.Args) != 2 {
-				continue
-			}
-			// declared result type of the method
-			var want types.Type
-			for i := 0; i < ms.Len(); i++ {
-				if ms.At(i).Obj().Name() == name {
-					want = ms.At(i).Obj().Type().(*types.Signature).Results().At(0).Type()
+		// an arm shared by several methods is checked for each of them
+		for _, lab := range cc.List {
+			name := strings.Trim(exprStr(lab), `"`)
+			for _, ce := range callsNamed(cc, "internalize") {
+				if len(ce.Args) != 2 {
+					continue
 				}
-			}
-			got := exprStr(ce.Args[1])
-			ok := false
-			if want != nil {
-				switch w := want.Underlying().(type) {
-				case *types.Basic:
-					ok = got == "types.Typ[types."+title(w.Name())+"]"
-				case *types.Interface:
-					ok = w.Empty() && got == "types.NewInterfaceType(nil, nil)"
+				// declared result type of the method
+				var want types.Type
+				for i := 0; i < ms.Len(); i++ {
+					if ms.At(i).Obj().Name() == name {
+						want = ms.At(i).Obj().Type().(*types.Signature).Results().At(0).Type()
+					}
 				}
+				got := exprStr(ce.Args[1])
+				ok := false
+				if want != nil {
+					switch w := want.Underlying().(type) {
+					case *types.Basic:
+						ok = got == "types.Typ[types."+title(w.Name())+"]"
+					case *types.Interface:
+						ok = w.Empty() && got == "types.NewInterfaceType(nil, nil)"
+					}
+				}
+				r.Check(ok, "accessor:"+name, c.Pos(ce.Pos()), fmt.Sprintf("js.Object.%s is declared to return %v; the translation internalises as %s", name, want, got))
 			}
-			r.Check(ok, "accessor:"+name, c.Pos(ce.Pos()), fmt.Sprintf("js.Object.%s is declared to return %v; the translation internalises as %s", name, want, got))
 		}
 	}
 	// special names
